@@ -721,8 +721,14 @@ func IsValidFilter(filter string, forPublish bool) bool {
 	}
 
 	wildhash := strings.IndexRune(filter, '#')
-	if wildhash >= 0 && wildhash != len(filter)-1 { // [MQTT-4.7.1-2]
+	if wildhash >= 0 && (wildhash != len(filter)-1 || (wildhash > 0 && filter[wildhash-1] != '/')) { // [MQTT-4.7.1-2]
 		return false
+	}
+
+	for i := 0; i < len(filter); i++ { // '+' must occupy an entire level [MQTT-4.7.1-3]
+		if filter[i] == '+' && ((i > 0 && filter[i-1] != '/') || (i < len(filter)-1 && filter[i+1] != '/')) {
+			return false
+		}
 	}
 
 	prefix, hasNext := isolateParticle(filter, 0)
@@ -732,8 +738,8 @@ func IsValidFilter(filter string, forPublish bool) bool {
 
 	if hasNext && strings.EqualFold(prefix, SharePrefix) {
 		group, hasNext := isolateParticle(filter, 1)
-		if !hasNext {
-			return false // [MQTT-4.8.2-1]
+		if !hasNext || len(group) == 0 || len(filter) == len(prefix)+len(group)+2 {
+			return false // [MQTT-4.8.2-1] share name and the filter after it must not be empty
 		}
 
 		if strings.ContainsRune(group, '+') || strings.ContainsRune(group, '#') {
